@@ -23,7 +23,7 @@ func runC04(w *World, rng *rand.Rand, div int) {
 	cnt := 0
 	for _, batch := range []uint64{oldBatch, 1} { // 1 byte: every key its own batch
 		kv.TxnCommitBatchSize.Store(batch)
-		for _, sh := range shapes {
+		for _, sh := range append(append([]shape{}, shapes...), assertShapes...) {
 			for _, lay := range layouts {
 				for _, pess := range []bool{false, true} {
 					w.reset(M{"kind": "c04dry", "shape": sh.name, "pess": pess, "batch": int(batch)}, lay)
